@@ -2,7 +2,7 @@
    Only statements, each closed by `exact`, with Print Assumptions. *)
 From Coq Require Import NArith List Bool.
 From Coq Require Import ZArith.
-From PS Require Import Base.Chars Base.Outcome Model.SString Model.Slice Spec.Items Proofs.SStringP Proofs.ConvertP Proofs.SliceP Proofs.QuoteP Model.FieldName Proofs.FieldNameP.
+From PS Require Import Base.Chars Base.Outcome Model.SString Model.Slice Spec.Items Proofs.SStringP Proofs.ConvertP Proofs.SliceP Proofs.QuoteP Model.FieldName Proofs.FieldNameP Model.RxEscape Proofs.RxEscapeP.
 Import ListNotations.
 
 (* the parser of SigmaString.__init__ reads a source string exactly as the specification's
@@ -92,6 +92,14 @@ Theorem C05_field_quote_unescaped_refuted : exists f,
   fread None (Some 39%N) true (escape_and_quote_field test_backend_fcfg (fun _ => false) true f) <> Some f.
 Proof. exact field_quote_unescaped_refuted. Qed.
 Print Assumptions C05_field_quote_unescaped_refuted.
+
+(* SigmaRegularExpression.escape with single-character escaped sequences that include the escape
+   character itself: the target's reading of the escaped regular expression is the source text *)
+Theorem C05_rx_escape_roundtrip : forall e cs s,
+  rx_unescape (map (fun x => [x]) cs) [e] true
+              (rx_escape (map (fun x => [x]) cs) [e] true false [] s) = s.
+Proof. exact rx_escape_roundtrip. Qed.
+Print Assumptions C05_rx_escape_roundtrip.
 
 (* non-vacuity: the premises are met by a non-trivial configuration and value *)
 Example C05_premises_inhabited :
